@@ -380,7 +380,7 @@ fn sc_stale_midput() -> Option<String> {
         let res = if !matches!(r2, Some(Response::PutResult { committed: true, .. })) { None }      // not the interleaving we wanted: nothing to say
             else if matches!(r1, Some(Response::PutResult { committed: true, .. })) || live != live2 {
                 Some(format!("server 1 was parked mid-body of Put(f, expected = hash of the {}-byte content it could see); server 2 then committed a {}-byte replacement in the same second (acknowledged); the rest of server 1's body arrived and it answered {r1:?}; the live file changed from server 2's content: {} - a commit against a hash the file no longer had (lost update) (C03)", old.len(), live2.len(), live != live2))
-            } else if !files.iter().any(|(p, b)| p.contains(".conflict-") && b == &c1) {
+            } else if matches!(r1, Some(Response::PutResult { committed: false, .. })) && !files.iter().any(|(p, b)| p.contains(".conflict-") && b == &c1) {
                 Some("a Put that lost its compare-and-swap to a commit made while its body was still arriving left no conflict copy with its bytes (C03)".to_string())
             } else { None };
         let _ = std::fs::remove_dir_all(&r);
